@@ -476,6 +476,11 @@ class Box:
 
 
 MUTANTS = [
+    Mutant('cluster-drops-the-minimum-distance-option', CE, 'Cluster.add_random_users',
+           [('replace', 'add_random_user(user_color, min_dist_ratio)', 'add_random_user(user_color)')], r'C19\.k:Cluster\.add_random_users:dropped:min_dist_ratio'),
+    Mutant('sector-radius-read-before-the-cell-radius-changes', CE, 'Cell3Sec.radius@setter',
+           [('replace', 'self._radius = value\n    secradius = self.secradius', 'secradius = self.secradius\n    self._radius = value')],
+           r'C19\.l:Cell3Sec\.radius@setter:stale:secradius'),
     Mutant('ratio-zero-treated-as-unset', CE, 'CellBase._validate_ratio',
            [('replace', 'if ratio == 1.0:', 'if not ratio or ratio == 1.0:')], r'C19\.f:CellBase\._validate_ratio:ratio'),
     Mutant('wrap-around-adds-two-absolute-centres', CE, 'Cluster.create_wrap_around_cells',
